@@ -417,7 +417,10 @@ impl Catalog {
 
             // Vacuum each tuple
             for position in tree.iter_forward()? {
-                if let Ok(pos) = position {
+                // An iterator error (e.g. the cache is out of frames) must end the scan: the
+                // iterator does not advance on error, so skipping it would loop forever.
+                let pos = position?;
+                {
                     tree.with_cell_at(pos, |bytes| {
                         let mut tuple = Tuple::from_slice_unchecked(bytes)?;
                         let xmin = tuple.xmin();
